@@ -334,6 +334,75 @@ Section WithHash.
     eapply sound_aux; eauto.
   Qed.
 
+  (** ---- soundness of the REPAIRED verifier (work/C03/fix.diff): when every
+      supplied node has a height different from 0 no guard on the tree is
+      needed ---- *)
+
+  Definition heights_ok (pi : list pnode) : bool :=
+    forallb (fun n => negb (pn_height n =? 0)) pi.
+
+  Lemma heights_ok_snoc : forall pi n,
+    heights_ok (pi ++ [n]) = true -> heights_ok pi = true /\ pn_height n <> 0.
+  Proof.
+    intros pi n E. unfold heights_ok in *. rewrite forallb_app in E.
+    apply andb_true_iff in E as [E1 E2]. split; [exact E1|].
+    simpl in E2. rewrite andb_true_r in E2. apply negb_true_iff in E2. apply Z.eqb_neq in E2. exact E2.
+  Qed.
+
+  Lemma sound_heights_aux : forall t, sized t ->
+    forall pf k v pi, heights_ok pi = true ->
+      chain H (leaf_hash H k v) pi = digest H pf t ->
+      In (k, v) (elements t) \/ collision.
+  Proof.
+    induction t as [k0 v0|nk h s l IHl r IHr]; intros Hs pf k v pi Hh E.
+    - change (digest H pf (Leaf k0 v0)) with (H k0 v0 0 1) in E.
+      destruct (list_rev_case pi) as [->|[pi' [n ->]]].
+      + simpl in E. unfold leaf_hash in E.
+        destruct (H_cases _ _ _ _ _ _ _ _ E) as [(-> & -> & _)|C]; [left; left; reflexivity|right; exact C].
+      + rewrite chain_snoc in E. destruct (heights_ok_snoc _ _ Hh) as [_ Hn].
+        destruct (step_eq _ _ _ _ _ _ E) as [(_ & Eh & _)|C]; [contradiction|right; exact C].
+    - destruct (sized_node_inv _ _ _ _ _ Hs) as (Hsl & Hsr & Hpos).
+      rewrite digest_node in E.
+      destruct (list_rev_case pi) as [->|[pi' [n ->]]].
+      + simpl in E. unfold leaf_hash in E.
+        destruct (H_cases _ _ _ _ _ _ _ _ E) as [(_ & _ & Eh & _)|C]; [lia|right; exact C].
+      + rewrite chain_snoc in E. destruct (heights_ok_snoc _ _ Hh) as [Hh' _].
+        assert (Lc : length (chain H (leaf_hash H k v) pi') = 32%nat) by (apply chain_len, leaf_hash_len).
+        destruct (step_eq _ _ _ _ _ _ E) as [(P & _ & _)|C]; [|right; exact C].
+        simpl. destruct (pn_left n) as [|x l']; inversion P as [[P1 P2]]; clear P.
+        * rewrite trim32_short in P1 by lia.
+          destruct (IHl Hsl _ _ _ _ Hh' P1) as [I|C]; [left; apply in_or_app; left; exact I|right; exact C].
+        * rewrite trim32_short in P2 by lia.
+          destruct (IHr Hsr _ _ _ _ Hh' P2) as [I|C]; [left; apply in_or_app; right; exact I|right; exact C].
+  Qed.
+
+  Theorem sound_repaired : forall t pf k v pi,
+    sized t ->
+    heights_ok pi && verify_kv H (digest H pf t) k v pi = true ->
+    In (k, v) (elements t) \/ collision.
+  Proof.
+    intros t pf k v pi Hs V. apply andb_true_iff in V as [Hh V]. apply verify_kv_true in V.
+    eapply sound_heights_aux; eauto.
+  Qed.
+
+  (** honest proofs pass the added test *)
+  Lemma construct_heights_ok : forall t, sized t -> forall pf k v lh pi,
+    construct H pf t k = Some (v, lh, pi) -> heights_ok pi = true.
+  Proof.
+    induction t as [lk lv|nk h s l IHl r IHr]; intros Hs pf k v lh pi C.
+    - simpl in C. destruct (beq lk k); [|discriminate]. inversion C; reflexivity.
+    - destruct (sized_node_inv _ _ _ _ _ Hs) as (Hsl & Hsr & Hpos).
+      cbn [construct] in C. destruct (blt k nk).
+      + destruct (construct H (sub pf false) l k) as [[[v0 lh0] pi0]|] eqn:Cl; [|discriminate].
+        inversion C; subst. pose proof (IHl Hsl _ _ _ _ _ Cl) as Hi.
+        unfold heights_ok in *. rewrite forallb_app, Hi. simpl. rewrite andb_true_r.
+        apply negb_true_iff, Z.eqb_neq. lia.
+      + destruct (construct H (sub pf true) r k) as [[[v0 lh0] pi0]|] eqn:Cr; [|discriminate].
+        inversion C; subst. pose proof (IHr Hsr _ _ _ _ _ Cr) as Hi.
+        unfold heights_ok in *. rewrite forallb_app, Hi. simpl. rewrite andb_true_r.
+        apply negb_true_iff, Z.eqb_neq. lia.
+  Qed.
+
   (** ---- a proof is bound to its key and value ---- *)
 
   Lemma chain_inj : forall pi x y,
